@@ -31,9 +31,10 @@ const (
 	KTryRLock
 	KEnd
 	KLockWait // trace only: Lock found readers, announced itself (new readers now block) and waits for them to drain
+	KSpawn    // a go statement of the code under test (rewritten by the build overlay to vsched.Go)
 )
 
-var kindNames = [...]string{"Start", "Lock", "Unlock", "RLock", "RUnlock", "Get", "Put", "Once", "OnceDone", "Yield", "TryLock", "TryRLock", "End", "LockWait"}
+var kindNames = [...]string{"Start", "Lock", "Unlock", "RLock", "RUnlock", "Get", "Put", "Once", "OnceDone", "Yield", "TryLock", "TryRLock", "End", "LockWait", "Spawn"}
 
 func (k Kind) String() string { return kindNames[k] }
 
@@ -89,6 +90,24 @@ func Point(kind Kind, obj uintptr, val interface{}) Answer {
 		select {} // abandoned execution: park forever
 	}
 	return a
+}
+
+// Go replaces a go statement of the code under test (cmd/mkoverlay rewrites `go f(x)` to a call of Go). Outside an
+// exploration it is a plain go statement; inside, the new goroutine becomes a thread of the controlled scheduler: the
+// spawn is a scheduling point of the spawning thread and the new thread first stops at its own start point.
+func Go(body func()) {
+	if !isActive() {
+		go body()
+		return
+	}
+	tok := new(byte)
+	RaceRelease(unsafe.Pointer(tok)) // what the spawner did so far happens before the new thread
+	Point(KSpawn, 0, spawnReq{body, tok})
+}
+
+type spawnReq struct {
+	body func()
+	tok  *byte
 }
 
 // Yield is an explicit scheduling point with no effect (used by harnesses between operations).
@@ -248,12 +267,14 @@ func (e *Explorer) run(prefix []int) *Exec {
 	}
 	resetClock()
 	setActive(true)
-	for i := 0; i < n; i++ {
+	var launchErr bool
+	launch := func(i int, body func(), startTok *byte) *thread {
 		t := &thread{id: i}
-		threads[i] = t
-		body := bodies[i]
 		go func() {
 			Point(KStart, 0, nil)
+			if startTok != nil {
+				RaceAcquire(unsafe.Pointer(startTok))
+			}
 			pan, site := "", ""
 			func() {
 				defer func() {
@@ -271,11 +292,19 @@ func (e *Explorer) run(prefix []int) *Exec {
 		}()
 		r, ok := recv()
 		if !ok {
+			launchErr = true
+			return t
+		}
+		t.pending, t.hasPend = r, true
+		return t
+	}
+	for i := 0; i < n; i++ {
+		threads[i] = launch(i, bodies[i], nil)
+		if launchErr {
 			x.Hang = true
 			setActive(false)
 			return x
 		}
-		t.pending, t.hasPend = r, true
 	}
 
 	enabledOp := func(t *thread) bool {
@@ -453,6 +482,13 @@ func (e *Explorer) run(prefix []int) *Exec {
 				o.running = t.id
 				ans.RunF = true
 			}
+		case KSpawn:
+			sp := r.val.(spawnReq)
+			nt := launch(len(threads), sp.body, sp.tok)
+			threads = append(threads, nt)
+			if launchErr {
+				x.Hang = true
+			}
 		case KOnceDone:
 			o := onces[r.obj]
 			if o != nil {
@@ -462,6 +498,9 @@ func (e *Explorer) run(prefix []int) *Exec {
 		}
 		x.Trace = append(x.Trace, st)
 		e.res.Steps++
+		if x.Hang { // a spawned thread did not reach its start point
+			break
+		}
 		raceDisable()
 		r.reply <- ans
 		raceEnable()
